@@ -100,7 +100,11 @@ func TestC20(t *testing.T) {
 
 	// golden registry
 	var golden []goldenEntry
-	gb, err := os.ReadFile(filepath.Join("..", "..", "golden", "ipfix_registry.json"))
+	goldenPath := filepath.Join("..", "..", "golden", "ipfix_registry.json")
+	if g := os.Getenv("VERIF_GOLDEN"); g != "" {
+		goldenPath = g
+	}
+	gb, err := os.ReadFile(goldenPath)
 	if err != nil {
 		t.Fatalf("harness: golden registry missing: %v", err)
 	}
